@@ -118,14 +118,16 @@ type Scn struct {
 
 	WrapClient func(inner litestream.ReplicaClient) litestream.ReplicaClient
 	ExtOp      func(s *Scn, name, arg string) (Outcome, bool) // check-defined operations
-	User       any // per-scenario state of the running check
-	LedgerRoot []uint32 // seq root page in effect when the ledger entry was recorded
+	User       any                                            // per-scenario state of the running check
+	LedgerRoot []uint32                                       // seq root page in effect when the ledger entry was recorded
 	lastTick   int64
 	NoLedger   bool   // worker side: no source bookkeeping
 	Remote     Remote // if set, litestream ops are forwarded to a worker process
 	RemoteDead bool   // the worker died (killed) during an op
 	DistinctMS bool
-	TickGapMS  int64 // minimum distance in ms between file-creating operations when DistinctMS is set
+	TickGapMS  int64       // minimum distance in ms between file-creating operations when DistinctMS is set
+	lfArmed    func() bool // local staging fault (LF:mode) still pending?
+	lfMode     string
 	savedDB    []byte
 	savedWAL   []byte
 
